@@ -11,6 +11,7 @@ import (
 	"encoding/hex"
 	"encoding/json"
 	"fmt"
+	"io"
 	"net"
 	"os"
 	"runtime"
@@ -23,6 +24,7 @@ import (
 	"time"
 
 	"github.com/khirono/go-nl"
+	"github.com/sirupsen/logrus"
 
 	"github.com/free5gc/go-upf/internal/forwarder"
 	"github.com/free5gc/go-upf/internal/forwarder/buffnetlink"
@@ -370,9 +372,11 @@ func TestVerifL2(t *testing.T) {
 	if k == 0 {
 		k = 78
 	}
-	logger.Log.SetLevel(0)
+	logger.Log.SetLevel(logrus.FatalLevel)
+	logger.Log.SetOutput(io.Discard)
 	if os.Getenv("VERIF_LOG") != "" {
 		logger.Log.SetLevel(6)
+		logger.Log.SetOutput(os.Stderr)
 	}
 	vfGnbIP = func(i int) string { return fmt.Sprintf("127.%d.1.%d", k, i) }
 	nw, err := vfNewNet(k)
@@ -402,6 +406,7 @@ func TestVerifL2(t *testing.T) {
 		}
 		x.gate.idle(s)
 	}
+	logger.Log.AddHook(vfFatalHook{x})
 	logger.Log.ExitFunc = func(code int) { x.noteFatal(fmt.Sprintf("exit(%d) via logger (recovered panic in the event loop)", code)) }
 
 	fi, err := os.Open(in)
@@ -520,14 +525,38 @@ func TestVerifL2(t *testing.T) {
 					t.Fatalf("INFRA: periodic server did not drain")
 				}
 				turns = uint64(atomic.LoadInt64(&st.h.fwd) - f0)
-			case "raw":
-				b, _ := hex.DecodeString(e.Raw)
+			case "raw", "mut":
+				var b []byte
+				if e.T == "mut" {
+					var err error
+					if b, err = x.buildMut(&e.vfEvent); err != nil {
+						t.Fatalf("INFRA: %v", err)
+					}
+				} else {
+					b, _ = hex.DecodeString(e.Raw)
+				}
 				if len(b) == 0 {
 					t.Fatalf("INFRA: empty raw datagram")
 				}
 				if _, err := nw.conns[e.Peer].WriteToUDP(b, &net.UDPAddr{IP: net.ParseIP(nw.upf), Port: 8805}); err != nil {
 					t.Fatalf("INFRA: %v", err)
 				}
+			case "report":
+				seid, _ := strconv.ParseUint(e.SEID, 10, 64)
+				sr := report.SessReport{SEID: seid}
+				for j := range e.Reports {
+					rp := &e.Reports[j]
+					switch rp.K {
+					case "usar":
+						u, rec := r.twin.newReport(rp.URR, uint32(rp.Trig))
+						rp.Tok, rp.Vals = rec.Tok, rec.Vals
+						sr.Reports = append(sr.Reports, u)
+					case "dldr":
+						pkt, _ := hex.DecodeString(rp.Pkt)
+						sr.Reports = append(sr.Reports, report.DLDReport{PDRID: uint16(rp.PDR), Action: uint16(rp.Action), BufPkt: pkt})
+					}
+				}
+				st.srv.NotifySessReport(sr)
 			case "timeout":
 				tt := RX
 				if e.TT == "tx" {
